@@ -70,10 +70,22 @@ mod h {
             }
         };
     }
-    rename_names!(rename_2, 2, ["zz"]);
-    rename_names!(rename_3, 3, []);
+    rename_names!(rename_2, 2, ["zz", "pz", "b1", "b2"]);
+    rename_names!(rename_3, 3, ["bth"]);
     rename_names!(rename_4, 4, ["args"]);
     rename_names!(rename_5, 5, ["other"]);
+
+    /// the same on an interface: `ip` (attribute above sv::msg) answers to `iy` only
+    #[kani::proof]
+    #[kani::unwind(8)]
+    fn rename_iface_2() {
+        let b = any_name::<2>();
+        let s = as_str(&b);
+        let acc = accepted::<IfatExecMsg>(s);
+        assert!(acc == in_list(s, &["ie", "iy"]), "only the designated variant is renamed");
+        kani::cover!(acc);
+        kani::cover!(!acc);
+    }
 
     /// ... and the renamed variant serialises under `zz`, its sibling under `other`.
     #[kani::proof]
